@@ -5,6 +5,8 @@ the oracle `refsem.den` runs on the same proxies; z3 decides, per path, that
 `pc => impl == oracle` for every environment."""
 from __future__ import annotations
 
+from fractions import Fraction
+
 from pv import harness as H
 from pv import refsem, skel
 from pv.common import ItemResult, Violation
@@ -58,6 +60,9 @@ def _specials():
         ("if", v("x1"), ("quot", ("c", 1), v("x1")), ("c", 0)), ("if", v("x1"), ("c", 7), UNB), ("if", v("x1"), UNB, ("c", 7)),
         ("if", ("sum2", v("x1"), v("x2")), ("floordiv", v("x3"), ("sum2", v("x1"), v("x2"))), v("x3")),
         ("if", ("c", 0), UNB, v("x1")), ("if", ("c", 2), v("x1"), UNB), ("if", ("c", 0.0), ("quot", v("x1"), ("c", 0)), v("x1")),
+        # wrappers of every scope (evaluated twice in different environments, see _warm)
+        ("cse_glob", ("sum2", v("x1"), v("x2"))), ("sum2", ("cse_glob", ("prod2", v("x1"), v("x2"))), ("cse_glob", ("prod2", v("x1"), v("x2")))),
+        ("prod2", ("cse_glob", ("call1", v("f1", "fn"), v("x1"))), v("x2")), ("sum2", ("cse_pfx", ("sum2", v("x1"), ("c", 1))), ("cse_glob", v("x1"))),
         # one-element tuple index: a[(i,)] is not a[i]
         ("sub1t", v("a1", "arr"), v("x1")), ("sum2", ("sub1t", v("a1", "arr"), v("x1")), ("sub1", v("a1", "arr"), v("x1"))),
         ("sub1t", v("a1", "arr"), ("sum2", v("x1"), v("x2"))),
@@ -154,6 +159,27 @@ def _evaluators():
     ]
 
 
+def _shifted(env):
+    """another environment: every number moved by one (an evaluation in it must not influence later evaluations)"""
+    out = {}
+    for k, v in env.items():
+        if isinstance(v, (sym.SymBool, bool)):
+            out[k] = v
+        elif isinstance(v, (sym.Sym, int, float, Fraction)):
+            out[k] = v + 1
+        else:
+            out[k] = v
+    return out
+
+
+def _warm(ev, expr, env):
+    """evaluate once in another environment (the result is thrown away), as an earlier user of the process would have"""
+    try:
+        ev(expr, _shifted(env))
+    except Exception:  # noqa: BLE001
+        pass
+
+
 def _uf_calls(env):
     return sum(len(v.calls) for v in env.values() if isinstance(v, sym.UF))
 
@@ -188,6 +214,8 @@ def check_skeleton(desc, fam, tier, twin=None):
         n_o = _uf_calls(env)
         outs = []
         for name, ev in evaluators:
+            if has_cse:
+                _warm(ev, expr, env)
             before = _uf_calls(env)
             outs.append((name, H.outcome(lambda: ev(expr, env)), _uf_calls(env) - before))
         return o, outs, n_o
@@ -239,6 +267,8 @@ def check_skeleton(desc, fam, tier, twin=None):
                     differs, txt = True, why
                 else:
                     ev = dict(evaluators)[name]
+                    if has_cse:
+                        _warm(ev, expr, cenv)
                     differs, txt = H.replay_differs(lambda: ev(expr, cenv),
                                                     lambda: refsem.den(expr, cenv), truthy)
                 if not differs:
